@@ -109,6 +109,7 @@ Verdict(r) ==
         ELSE IF RTSense(g.atoms, g.adj, dd) # "" THEN <<"C04", RTSense(g.atoms, g.adj, dd)>>
         ELSE IF r.strict /\ OverfullAfter(g.atoms, g.adj, RTMatching(g.adj, dd)) # {}
              THEN <<"C06", "strict accepted a molecule with an atom above its capacity">>
+        ELSE IF Len(r.dec) > 0 /\ Ch(r.dec, 1) = "<" THEN <<"C10", "the library's decoder rejects the encoder's output: " \o r.dec>>
         ELSE IF SemEq(dd, r.dec) # "" THEN <<"C02", SemEq(dd, r.dec)>>
         ELSE IF r.reenc # r.sel THEN <<"C10", "re-encoding the decoded SMILES gives a different SELFIES string">>
         ELSE IF "eattr" \in DOMAIN r /\ EAttrClause(g, dd, r) # "" THEN <<"C17", EAttrClause(g, dd, r)>>
